@@ -135,7 +135,7 @@ fn expected(m: &Model) -> BTreeMap<Uuid, usize> {
 
 pub fn run(ctx: &Ctx) -> i32 {
     let wall_seqs = seqs(WALL_OPTS, 2);
-    let win_seqs = seqs(WIN_OPTS, ctx.tier.pick(1, 2));
+    let win_seqs = seqs(WIN_OPTS, 2);
     let tb_seqs = seqs(LENS.len(), ctx.tier.pick(1, 2));
     let sp = Grid::new(&[("walls", wall_seqs.len()), ("windows", win_seqs.len()), ("bridges", tb_seqs.len()), ("nil_space", 2)]);
     let n = sp.size();
@@ -237,7 +237,7 @@ pub fn run(ctx: &Ctx) -> i32 {
     }
     ctx.finish(
         "model_checking",
-        &format!("full product: 0..2 walls x (space{{ok,absent,nil}} x cons{{ok,absent,nil}} x next_to{{None,ok,absent,nil}}) x 0..{} windows x (wall{{ok,absent,nil}} x cons{{ok,absent}}) x 0..{} bridges x l{{-1,-0.0,0,2}} x {{no space with nil id, one}}; oracle = number of broken links per element id (reference: set membership, l<0), compared with the number of warnings carrying that id; every 97th model also: JSON unchanged by check(), energy_indicators().warnings == check(); + 7 shipped models; non-trivial = at least one broken link expected", ctx.tier.pick(1, 2), ctx.tier.pick(1, 2)),
+        &format!("full product: 0..2 walls x (space{{ok,absent,nil}} x cons{{ok,absent,nil}} x next_to{{None,ok,absent,nil}}) x 0..{} windows x (wall{{ok,absent,nil}} x cons{{ok,absent}}) x 0..{} bridges x l{{-1,-0.0,0,2}} x {{no space with nil id, one}}; oracle = number of broken links per element id (reference: set membership, l<0), compared with the number of warnings carrying that id; every 97th model also: JSON unchanged by check(), energy_indicators().warnings == check(); + 7 shipped models; non-trivial = at least one broken link expected", 2, ctx.tier.pick(1, 2)),
         true,
         json!({"space_size": n}),
     )
